@@ -201,6 +201,33 @@ func init() {
 		s, ok := in.vfs().files[p]
 		return Tuple{s, mkBool(ok)}
 	}
+	harnessAPI["vFSList"] = func(in *Interp, fr *frame, a []Value) Value {
+		// vFSList(dirRel): the names in the directory (files, links, sub-directories), sorted, one per line
+		dir := "/vfs/" + strings.TrimSuffix(strArg(a[0]).mustConcrete(), "/")
+		f := in.vfs()
+		names := map[string]bool{}
+		for p := range f.files {
+			if filepath.Dir(p) == dir {
+				names[filepath.Base(p)] = true
+			}
+		}
+		for d := range f.dirs {
+			if d != dir && filepath.Dir(d) == dir {
+				names[filepath.Base(d)] = true
+			}
+		}
+		for l := range f.links {
+			if filepath.Dir(l) == dir {
+				names[filepath.Base(l)] = true
+			}
+		}
+		var sorted []string
+		for n := range names {
+			sorted = append(sorted, n)
+		}
+		sort.Strings(sorted)
+		return mkStr(strings.Join(sorted, "\n"))
+	}
 	harnessAPI["vFSWrites"] = func(in *Interp, fr *frame, a []Value) Value {
 		var out []Value
 		for _, w := range in.vfs().writes {
@@ -472,13 +499,26 @@ func init() {
 		return in.notExist(fr, "remove", path)
 	})
 	reg("os.Rename", func(in *Interp, fr *frame, a []Value) Value {
+		// rename(2): works on directory entries, never follows a symbolic link at either end; an existing
+		// destination (file or link) is replaced; a directory cannot be replaced by a file
 		f := in.vfs()
 		from, to := strArg(a[0]).mustConcrete(), strArg(a[1]).mustConcrete()
+		if f.dirs[to] {
+			return in.mkError(fr, mkStr("rename "+from+" "+to+": file exists"))
+		}
+		if t, isLink := f.links[from]; isLink {
+			delete(f.links, from)
+			delete(f.files, to)
+			f.links[to] = t
+			f.writes = append(f.writes, from, to)
+			return nilError()
+		}
 		c, isFile := f.files[from]
 		if !isFile {
 			return in.mkError(fr, mkStr("rename "+from+" "+to+": no such file or directory"))
 		}
 		delete(f.files, from)
+		delete(f.links, to)
 		f.files[to] = c
 		f.writes = append(f.writes, from, to)
 		return nilError()
